@@ -44,6 +44,9 @@ pub fn copy_raw_name_from_str(
             }
             _ if label_len >= 63 - 1 => bail!(DSError::InvalidName("Label too long")),
             c if c > 128 => bail!(DSError::InvalidName("Non-ASCII character in a label")),
+            c if c.is_ascii_control() || c == b'\\' => {
+                bail!(DSError::InvalidName("Invalid character in a label"))
+            }
             _ if label_len == 0 => {
                 label_start = i;
                 label_len += 1;
